@@ -128,7 +128,7 @@ def run(repo, rep, tier):
                     continue
                 if mname != "__init__" and init:
                     continue      # reported at __init__ through the call chain
-                rep.fail("R-C18-1", f, ln, f"{c.qualname}.{_origin(cons, fi)}", cons,
+                rep.fail("R-C18-1", f, ln, c.qualname, cons,
                          f"instance attribute '{attr}' of the cached accessor holds state derived from the wrapped "
                          f"object{'' if init else ' and is written at call time'}: later calls see the old value after "
                          "the object is edited in place", anchor=f"{c.name}:instance-store:{attr}")
